@@ -147,8 +147,8 @@ def pool_for(m, P):
         return [V(True, cli=FLAG), V(False), V(True, py="'true'"), V(False, py="'false'")]
     if k == "sendfile":              # --no-sendfile is store_const False
         return [V(False, cli=FLAG), V(True), V(False, py="'false'"), V(True, py="'true'")]
-    if k == "string":                # documented normalisation: strip
-        return _strings("", "alpha", " beta ", "gamma/4")
+    if k == "string":                # documented normalisation: strip; a file / framework may also say None explicitly
+        return _strings("", "alpha", " beta ", "gamma/4") + [V(None, py="None")]
     if k == "config":                # what -c accepts: PATH, file:PATH, python:MODULE
         return [V(P["cfgA"], cli=P["cfgA"], load=P["cfgA"]),
                 V("file:" + P["cfgB"], cli="file:" + P["cfgB"], load=P["cfgB"]),
@@ -173,7 +173,7 @@ def pool_for(m, P):
                 V(["SCRIPT_NAME", "REMOTE_USER"], py="'SCRIPT_NAME, REMOTE_USER'", cli="SCRIPT_NAME, REMOTE_USER"),
                 V(["PATH_INFO", "X-A", "X-B"], py="'PATH_INFO,X-A,X-B'", cli="PATH_INFO,X-A,X-B")]
     if k == "addr_list":
-        return [V([], py="''", cli=""), V(["10.0.0.1"], py="'10.0.0.1'", cli="10.0.0.1"),
+        return [V([], py="''", cli=""), V([], py="None"), V(["10.0.0.1"], py="'10.0.0.1'", cli="10.0.0.1"),
                 V(["10.0.0.1", "10.0.0.2"], py="'10.0.0.1, 10.0.0.2'", cli="10.0.0.1, 10.0.0.2"),
                 V(["*"], py="'*'", cli="*"), V(["::1", "192.168.0.7"], py="'::1,192.168.0.7'", cli="::1,192.168.0.7")]
     if k == "user":                  # names or numeric ids; the normal form is the numeric id
@@ -222,7 +222,7 @@ def invalids_for(m, P):
     missing = os.path.join(P["home"], "c16-missing")
     if k in ("pos_int", "umask"):
         return [BAD("negative", py="-1", cli="-1"), BAD("non-numeric", py="'abc'", cli="abc"),
-                BAD("float", py="7.5", cli="7.5")]
+                BAD("float", py="7.5", cli="7.5"), BAD("none", py="None")]
     if k == "cert_reqs":
         return [BAD("negative", py="-1", cli="-1"), BAD("non-numeric", py="'x'", cli="x")]
     if k in ("bool", "sendfile"):
@@ -249,7 +249,7 @@ def invalids_for(m, P):
         return [BAD("wrong-arity", py="c16_bad_hook", pre="def c16_bad_hook(%s):\n    pass" % args),
                 BAD("not-callable", py="5"), BAD("bad-import-string", py="'c16_no_such_module.fn'")]
     if k in ("secure_scheme_headers", "logconfig_dict"):
-        return [BAD("list-for-dict", py="[('a', 'b')]"), BAD("string-for-dict", py="'a=b'")]
+        return [BAD("list-for-dict", py="[('a', 'b')]"), BAD("string-for-dict", py="'a=b'"), BAD("none", py="None")]
     if k == "header_map":
         return [BAD("unknown", py="'bogus'", cli="bogus"), BAD("non-string", py="5")]
     if k == "reload_engine":
